@@ -555,6 +555,13 @@ fn run_conc(kind: Kind, limit: usize, track: bool, peak: bool, rspec: &[(bool, b
         }));
     }
     let limit_applies = kind != Kind::Unbounded && !infallible_used;
+    // FairSpillPool bounds each spillable consumer by its share *at grant time* and unspillable
+    // growth by what is free; when both kinds are present the shares shrink as unspillable memory
+    // grows, so the total may legally pass the pool size (e.g. limit 64: spillable 32, then
+    // unspillable 21, then another spillable 21 <= (64-21)/2). The total is therefore only
+    // asserted for homogeneous Fair pools (and always for Greedy).
+    let n_spill_cons = cons.iter().filter(|c| c.1).count();
+    let total_limit_applies = limit_applies && (kind == Kind::Greedy || n_spill_cons == 0 || n_spill_cons == cons.len());
     let mon = if monitor {
         let pool = Arc::clone(&p.pool);
         Some(shuttle::thread::spawn(move || {
@@ -636,11 +643,11 @@ fn run_conc(kind: Kind, limit: usize, track: bool, peak: bool, rspec: &[(bool, b
         }
     }
     if let Some(worst) = worst_observed {
-        if limit_applies && worst > limit {
+        if total_limit_applies && worst > limit {
             overshoot("limit-exceeded-observed", format!("a concurrent observer saw pool.reserved()={worst} with limit {limit} although only fallible growth was used"));
         }
     }
-    if limit_applies && total > limit {
+    if total_limit_applies && total > limit {
         overshoot("limit-exceeded", format!("{total} reserved through fallible growth only, limit {limit}"));
     }
     if let Some(t) = &p.track {
